@@ -20,6 +20,7 @@ from mc.server import AppConn
 from refs import http1
 
 PROPERTY = "C05"
+explorer.PROP = PROPERTY
 
 BEHAVIOURS = ["ret", "read", "httpexc", "exc", "timeout", "stream3", "park", "none", "readpark"]
 
@@ -77,11 +78,17 @@ class Scen:
         self.faultset = set(case.get("faults", ()))
         app = web.Application()
         app.router.add_route("*", "/{id:.*}", self.handler)
-        self.conn = AppConn(loop, app, keepalive_timeout=75, lingering_time=10.0)
+        self.conn = AppConn(loop, app, keepalive_timeout=75, lingering_time=10.0, **case.get("server_kw", {}))
         self.conn.st.set_write_buffer_limits(high=64, low=16)
         self.conn.send(self.stream)
         self.ref = http1.read_requests(self.stream, upgrades=())
         self.bounds = [m.end for m in self.ref.messages if m.end]
+        # structural cut points inside a message: end of its head, middle of its body
+        self.inner = []
+        for m in self.ref.messages:
+            he = self.stream.find(b"\r\n\r\n", m.start)
+            if he >= 0 and m.end and he + 4 < m.end:
+                self.inner += [he + 4, (he + 4 + m.end) // 2]
         self.peer_gone = False
         self.max_queue = 0
 
@@ -131,6 +138,9 @@ class Scen:
             nxt = next((b for b in self.bounds if b > sent), None)
             if nxt is not None and nxt - sent < n:
                 m.append(("rx.msg", lambda k=nxt - sent: c.deliver_to_server(k)))
+            inn = next((b for b in self.inner if b > sent), None)
+            if inn is not None and inn - sent < n and inn != nxt:
+                m.append(("rx.part", lambda k=inn - sent: c.deliver_to_server(k)))
             if n > 1:
                 m.append(("rx.1", lambda: c.deliver_to_server(1)))
             if n > 40:
@@ -285,6 +295,14 @@ def cases(quick):
     out.append({"name": "http10ka", "stream": req(0, "http10ka") + req(1, "http10ka"), "behaviours": ["ret"], "faults": F})
     out.append({"name": "expect", "stream": req(0, "expect") + req(1), "behaviours": ["read", "ret"], "faults": F})
     out.append({"name": "head", "stream": req(0, "head") + req(1), "behaviours": ["ret"], "faults": F})
+    up = lambda i: b"GET /%d HTTP/1.1\r\nHost: a\r\nUpgrade: websocket\r\nConnection: upgrade\r\n\r\n" % i
+    out.append({"name": "upgrade-declined-twice", "stream": up(0) + req(1) + up(2) + req(3), "behaviours": ["ret"], "faults": F})
+    out.append({"name": "upgrade-declined-twice-last", "stream": up(0) + req(1) + up(2), "behaviours": ["ret"], "faults": F})
+    out.append({"name": "upgrade-declined-thrice", "stream": up(0) + req(1, "post") + up(2) + up(3), "behaviours": ["ret", "read"], "faults": F})
+    out.append({"name": "upgrade-declined-parked", "stream": up(0) + req(1) + up(2) + req(3, "post"), "behaviours": ["park", "ret", "park", "read"], "faults": F})
+    out.append({"name": "upgrade-declined-parked-big", "stream": up(0) + req(1, "big") + req(2), "behaviours": ["park", "read", "ret"],
+                "faults": F, "server_kw": {"read_bufsize": 64}})
+    out.append({"name": "post-unread-then-2", "stream": req(0, "post") + req(1) + req(2), "behaviours": ["ret"], "faults": F})
     out.append({"name": "park-first-of-3", "stream": pipe(3), "behaviours": ["park", "ret", "read"], "faults": F})
     # around the queue limit
     for n in (31, 32, 33, 40):
@@ -324,7 +342,7 @@ def _job(job):
 def run(ctx):
     ctx.rule = (
         "executions = all schedules with <= d deviations per scenario (client stream x handler behaviours): inbound "
-        "segmentation (all / up to next message / 1 byte / 33 bytes), write buffer full+flush, peer close/reset at any pass, "
+        "segmentation (all / up to next message / up to head end or body middle / 1 byte / 33 bytes), write buffer full+flush, peer close/reset at any pass, "
         "timer before I/O, several events per pass; oracle = independent response framer + lifecycle invariants per pass and "
         "at quiescence; outcome distinct by (scenario, statuses, ids, open, handler alive, peer gone, peak queue)"
     )
